@@ -116,6 +116,28 @@ func extRegexpMatchString(fr *frame, args []value) value {
 			pb = pb[:len(pb)-1]
 		}
 	}
+	// an end anchor followed by more literal text, or a start anchor preceded by
+	// literal text, can never match (no multi-line flag): exact, no assumption
+	for k, b := range pb {
+		if c, ok := b.(byte); ok && (c == '$' && k < len(pb)-1 || c == '^' && k > 0) {
+			rest := pb[k+1:]
+			if c == '^' {
+				rest = pb[:k]
+			}
+			allSafe := len(rest) > 0
+			for _, r := range rest {
+				switch r := r.(type) {
+				case byte:
+					allSafe = allSafe && safeLiteralByte(r)
+				case *Term:
+					allSafe = allSafe && !i.decide(i.tb.Not(i.inSafeClass(r)))
+				}
+			}
+			if allSafe {
+				return tuple{false, nilErr()}
+			}
+		}
+	}
 	for _, b := range pb {
 		switch b := b.(type) {
 		case byte:
